@@ -517,6 +517,22 @@ func (g *gen) query() string {
 func (g *gen) joinOn(depth int) string {
 	r := g.rng
 	eqs := []string{"t.id = j.id", "float(t.id) = j.id", "t.s = j.s", "t.f = j.id", "t.ts = j.ts", "t.n = j.n", "t.g = int(j.id)", "t.s = j.o->y", "float(t.g) = j.o->x"}
+	if r.Intn(4) == 0 {
+		// comparison whose operands are left-only / right-only / mixed / constant, in any combination
+		kinds := [][]string{
+			{"float(t.id)", "t.f", "float(t.g) + 1.0", "abs(t.f)"},
+			{"j.id", "j.id + 1.0", "abs(j.id)", "j.o->x"},
+			{"t.f + j.id", "j.id - float(t.g)", "abs(j.id * t.f)", "float(t.g) + j.o->x"},
+			{"1.0", "2.0 * 3.0", "float(7)"},
+		}
+		a := g.pick(kinds[r.Intn(len(kinds))])
+		b := g.pick(kinds[r.Intn(len(kinds))])
+		pred := a + " " + g.pick([]string{"=", "=", "=", "<", "!=", ">="}) + " " + b
+		if r.Intn(3) == 0 {
+			pred = g.pick(eqs) + " AND " + pred
+		}
+		return pred
+	}
 	switch r.Intn(12) {
 	case 0, 1, 2:
 		return g.pick(eqs)
